@@ -522,6 +522,42 @@ def check_range_exits(res, prop, cm, roles, m, top, bodies):
     elements of the range unprocessed."""
     from symex import root_of
     loops = set(id(b.in_loop) for b in bodies if b.in_loop is not None)
+    # an iteration that leaves the loop (`break` / `return`) before it has looked its element up: only when nothing is left to erase
+    body_segs = set(id(b.seg) for b in bodies)
+    for lp, segs in top.loops:
+        if id(lp) not in loops:
+            continue
+        for s2 in segs:
+            if id(s2) in body_segs or s2.status not in ('break', 'ret') or s2.conds_of('PRESENT') or not lift.feasible(s2)[0]:
+                continue
+            fine = ops.kind_of(m) == 'ERASE' and any(c[0] == 'NONEMPTY' and c[2] is False for c in s2.conds) and not s2.state_effects()
+            if not fine and not s2.state_effects():
+                # `for (;;) { if (current == last) break; ... }`: the exit on the exhausted range written as a break
+                for c in s2.conds:
+                    raw = c[4]
+                    if c[0] in ('OTHER', 'LV_EQ') and isinstance(raw, tuple) and len(raw) == 4 and raw[0] == 'cmp' and raw[1] in ('==', '!=') and all(
+                            isinstance(x, tuple) and x and (x[0] in ('lv', 'p') or (x[0] == 'q' and x[1] in ('end', 'cend', 'size') and root_of(x[2])[0] == 'param'))
+                            for x in (raw[2], raw[3])) and any(isinstance(x, tuple) and x[:1] == ('lv',) for x in (raw[2], raw[3])) \
+                            and not any(is_ld(x) for x in (raw[2], raw[3])):
+                        rt = c[5] if len(c) > 5 and c[5] is not None else c[2]
+                        if bool(rt) == (raw[1] == '=='):
+                            fine = True
+            if not fine and ops.kind_of(m) == 'ERASE' and not s2.state_effects() and roles.counter:
+                # `if (deleted == stored_on_entry) break;`: the returned tally (stepped exactly once per removal, R-ERASE-TRUTH) has
+                # reached a snapshot of the element counter taken BEFORE the loop - everything that was stored is gone
+                tv = ops.tally_var(top.ret)
+                for c in s2.conds:
+                    raw = c[4]
+                    if c[0] == 'OTHER' and isinstance(raw, tuple) and len(raw) == 4 and raw[0] == 'cmp' and raw[1] == '==' and bool(c[5] if len(c) > 5 and c[5] is not None else c[2]):
+                        for a, b2 in ((raw[2], raw[3]), (raw[3], raw[2])):
+                            if tv is not None and isinstance(a, tuple) and a[:1] == ('lv',) and a[1] == tv[0] and is_ld(b2) \
+                                    and b2[2] == THIS(roles.counter) and b2[1] < 0:
+                                fine = True
+            res.ob('R-SIB-ONCE', ok=fine)
+            if not fine:
+                V(res, prop, 'R-SIB-ONCE', cm, m.key(), 'the range loop can stop before the end of the range', site_of_seg(s2, m),
+                  'iteration [%s] leaves the loop (%s) without handling its element: the remaining elements of the range stay unprocessed'
+                  % (' '.join(s2.valuation()), s2.status))
     for lp, segs in top.loops:
         if id(lp) not in loops or lp.kind == 'range':
             continue
@@ -1443,6 +1479,10 @@ def check_iter_typestate(res, prop, cm, roles, m, seg):
         if k == 'call' and e[2] in ('erase', 'pop_front', 'pop_back'):
             if len(e[3]) == 1:
                 erased.append((e[1], e[3][0], e[5]))
+            elif e[2] == 'pop_front' and not e[3]:
+                # the node begin() named until now is gone: a reference / iterator to it taken earlier dangles
+                for ep in range(0, 4):
+                    erased.append((e[1], ('q', 'begin', e[1], (), ep), e[5]))
             continue
         if k == 'call' and e[2] == 'clear':
             erased.append((e[1], ('*all*',), e[5]))
